@@ -368,6 +368,18 @@ func plainPool(e *emitter) [][]byte {
 		add(nasTestpacket.GetAuthenticationFailure(uint8(e.rng.Intn(256)), e.bytes(14)))
 		add(nasTestpacket.GetUlNasTransport_PduSessionReleaseRequest(uint8(1 + e.rng.Intn(15))))
 	}
+	// long messages (a SOR transparent container / NAS message container of up to 64K): receive buffers, 16-bit
+	// lengths and keystream bursts of the protection layer
+	long := []int{255, 256, 2048, 2100, 4200}
+	if e.thorough() {
+		long = []int{250, 255, 256, 2040, 2048, 2100, 4096, 4200, 9000, 20000}
+	}
+	for _, n := range long {
+		add(nasTestpacket.GetRegistrationComplete(e.bytes(n)))
+		if n != 2048 {
+			add(nasTestpacket.GetSecurityModeComplete(e.bytes(n)))
+		}
+	}
 	add(nasTestpacket.GetRegistrationComplete(nil))
 	add(nasTestpacket.GetConfigurationUpdateComplete())
 	add(nasTestpacket.GetDeregistrationAccept())
